@@ -31,7 +31,7 @@ E == Rec[l]
 
 TCase ==
   /\ E.ev = "case"
-  /\ a' = InitFlow(E.rq)
+  /\ a' = IF "cfg" \in DOMAIN E /\ "cln" \in DOMAIN E.cfg THEN WithFraming(InitFlow(E.rq), E.cfg) ELSE InitFlow(E.rq)
   /\ cs' = [id |-> E.id, prop |-> E.prop]
   /\ Step({})
 
@@ -48,8 +48,17 @@ TCall ==
             \* an error other than output overflow means the request was refused (C17 says when that must happen)
             /\ Step(StateFails)
             /\ a' = [a EXCEPT !.ready = E.ready, !.refused = @ \/ (E.res = "err" /\ ~("overflow" \in DOMAIN E /\ E.overflow))]
-       [] E.op \in {"sb_write", "read"} ->
+       [] E.op = "sb_write" ->
+            /\ Step(StateFails \cup SbWriteFails(a, E)) /\ a' = [a EXCEPT !.ready = E.ready, !.bleft = BodyLeftAfter(a, E)]
+       [] E.op = "read" ->
             /\ Step(StateFails) /\ a' = [a EXCEPT !.ready = E.ready]
+       [] E.op = "new_flow" ->
+            \* a request whose own Transfer-Encoding header is inherited by a bodiless follow-up is refused by C17's rules:
+            \* not judged here
+            /\ Step(StateFails \cup
+                    FClause("C09", "the flow created by following a redirect is not usable",
+                            (E.res = "flow" /\ "usable" \in DOMAIN E /\ a.framing # "chunked") => E.usable = "yes"))
+            /\ a' = a
        [] E.op = "try_read_100" ->
             /\ Step(StateFails \cup Read100Fails(a, E)) /\ a' = Read100Upd(a, E)
        [] E.op = "try_response" /\ E.kind = "truncated3xx" ->
